@@ -117,6 +117,20 @@ func gatherIncs(reg *prometheus.Registry) []string {
 	return out
 }
 
+// ctxProxy stands between the syslog ingester and the real processor and looks at the context the
+// ingester passes on (the caller's context has no deadline)
+type ctxProxy struct {
+	inner    sshd.SshdProcessor
+	deadline bool
+}
+
+func (p *ctxProxy) ProcessSshdLogEntry(ctx context.Context, sm sshd.SshdLogEntry) error {
+	if _, has := ctx.Deadline(); has {
+		p.deadline = true
+	}
+	return p.inner.ProcessSshdLogEntry(ctx, sm)
+}
+
 // runSshd processes one (pid, message) with the real processor.
 // via: "direct" = ProcessSshdLogEntry, "syslog" = SyslogIngester.Process on the framed bytes.
 // sharedMetrics: one metrics provider (and registry) kept across `left` more lines, so that the
@@ -202,8 +216,16 @@ func runSshd(pid, msg, framed string, writeOK bool, handoff string, via string) 
 		var err error
 		if via == "syslog" {
 			npi := namedpipe.NewNamedPipeIngester(zap.NewNop().Sugar(), health.NewHealth())
-			sli := syslog.NewSyslogIngester("/nonexistent", proc, npi)
+			px := &ctxProxy{inner: proc}
+			sli := syslog.NewSyslogIngester("/nonexistent", px, npi)
 			err = sli.Process(ctx, framed)
+			if px.deadline {
+				// the ingester handed the processor a context that can expire on its own: the hand-off
+				// of a login would then be abandoned although nobody cancelled anything
+				log.mu.Lock()
+				log.flags = append(log.flags, "!ctx-with-deadline")
+				log.mu.Unlock()
+			}
 		} else {
 			err = proc.ProcessSshdLogEntry(ctx, sshd.SshdLogEntry{PID: pid, Message: msg})
 		}
